@@ -240,6 +240,8 @@ def gen_float(tape, label, noncanon, dotless=False):
         if tape.boolean(label + ".md"):
             mant += "." + _digits(tape, 2, label + ".mf")
         t = f"{mant}e{e}"
+        if tape.boolean(label + ".upper_e", 1, 4):
+            t = t.replace("e", "E")         # 2.5E3: the exponent marker may be upper case
     return t
 
 
